@@ -124,7 +124,8 @@ def unforge_signature(data: bytes) -> str:
     :param data: encoded signature.
     :returns: base58 encoded signature (generic)
     """
-    return base58_encode(data, b'sig').decode()
+    # NOTE: BLS signatures are 96 bytes long and have no generic form
+    return base58_encode(data, b'BLsig' if len(data) == 96 else b'sig').decode()
 
 
 def forge_bool(value: bool) -> bytes:
